@@ -27,6 +27,8 @@ def alphabets(tier: str) -> Any:
 
 def items(tier: str) -> List[Any]:
     full, small = alphabets(tier)
+    for a in (small[0], small[1], ["txn TypeEnum", "int pay", "!="]):
+        full = full + A.cross_block(a)
     out: List[Any] = [("direct", s) for s in spaces.layered(full, small, tier)]
     sh = []
     for a in small[:2] + [["txn TypeEnum", "int pay", "!="], ["txn OnCompletion", "int UpdateApplication", "=="]]:
@@ -36,6 +38,13 @@ def items(tier: str) -> List[Any]:
         if s not in seen:
             seen.add(s)
             out.append(("shuffle", s))
+    from mc.gen import raw  # pylint: disable=import-outside-toplevel
+
+    for atom in [["txn OnCompletion", "int UpdateApplication", "!="], ["txn TypeEnum", "int pay", "=="]]:
+        for s in raw.with_atom(atom, 4 if tier == "quick" else 5):
+            if s not in seen:
+                seen.add(s)
+                out.append(("g1a", s))
     for s in spaces.unresolvable_constants([x for m, x in out if m == "direct"], 3000 if tier == "quick" else 20000):
         if s not in seen:
             seen.add(s)
@@ -50,7 +59,14 @@ def worker_init() -> None:
 def worker(item: Any, res: runner.Result) -> None:
     from mc import sem  # pylint: disable=import-outside-toplevel
 
-    _, src = item
+    mode, src = item
+    if mode == "g1a":
+        from mc.asm import tokenize  # pylint: disable=import-outside-toplevel
+        from mc.refcfg import RefGraph  # pylint: disable=import-outside-toplevel
+
+        if not RefGraph(tokenize(src)).entered_only_through_callsub():
+            res.count("filtered_bodies_not_entered_only_through_callsub")
+            return
     try:
         case = sem.Case(src)
     except BaseException as e:  # pylint: disable=broad-except
